@@ -484,7 +484,7 @@ def check_prog_batch(engines, batch, tag, env=None):
                 r1 = [l for l in l1 if l[:2] in ("P ", "H ", "W ", "A ") and not l.startswith("H engines")]
                 n1 = nplan(pl[o % len(pl)]) + pl[o % len(pl)].count("addrs\n") * (len(engines) - 1)
                 if rc1 != 0 or bad_lines(l1) or len(r1) != n1:
-                    fails.append({"prog": P, "plan": pl[o % len(pl)], "engines": engines, "lines": bad_lines(l1)[:6], "rc": rc1,
+                    fails.append({"prog": P, "plan": pl[o % len(pl)], "engines": engines, "lines": bad_lines(l1)[:60], "rc": rc1,
                                   "err": e1.strip()[-300:], "env": env or {}})
                     ENOUGH.append(1)
                     if len(ENOUGH) >= 10:
@@ -523,20 +523,17 @@ def classify_prog_failure(f):
     if rc != 0:
         f["gen_only"] = (bl + [f"rc={rc} {err.strip()[-100:]}"])[:2]
         return "c01"    # eager generation alone aborts / hangs
-    if bl:
-        f["gen_only"] = bl[:2]
-        # level-dependent result of eager generation = a generator (optimizer) defect.  When every level agrees
-        # and only the interpreter differs, the interpreter's own calls (ff-call -> thunk -> shim) are suspect: ours
-        for l in bl:
-            if l[:2] in ("P ", "H ", "W ") and " | " in l:
-                r = [x.rstrip("*") for x in l.split(" | ")[1].split()]
-                if len(r) == len(GEN_ONLY) and len(set(r[1:])) > 1:
-                    return "c01"
-        if all(l.startswith("A ") for l in bl):
-            return "c03"
-        f["lines"] = f["lines"] + ["with eager generation only (interp gen0 gen1 gen2 gen3): " + bl[0][:200]]
+    if not bl:
         return "c03"
-    return "c03"
+    f["gen_only"] = bl[:2]
+    # per evaluation: one that also fails with `interp` against eager generation alone is C01's; one on which
+    # interp and gen0..gen3 agree but another interface (interpc, lazy, bb, mixed link) does not is ours
+    gen_bad = {l.split(" | ")[0] for l in bl if " | " in l}
+    mine = [l for l in f["lines"] if l.startswith("A ") or (" | " in l and l.split(" | ")[0] not in gen_bad)]
+    if mine:
+        f["lines"] = mine
+        return "c03"
+    return "c01"
 
 
 def shrink_prog_failure(f):
@@ -546,10 +543,16 @@ def shrink_prog_failure(f):
     import time as _t
     deadline = _t.time() + (40 if quick else 240)
 
+    tkey = None
+    if f["rc"] == 0 and f["lines"] and " | " in f["lines"][0] and not f["lines"][0].startswith("ORDER"):
+        tkey = f["lines"][0].split(" | ")[0] + " | "     # keep THIS evaluation failing (others may be C01's)
+
     def fails(t, p):
         if _t.time() > deadline:
             return False
         rc, lines, err = run_iface(engines, t, p, "shrinkp", env, timeout=20)
+        if tkey is not None:
+            return any(l.startswith(tkey) for l in bad_lines(lines))
         return rc != 0 or bool(bad_lines(lines))
     pl = [l for l in plan.strip().split("\n")]
     # drop suffix after the first failing line
@@ -565,6 +568,9 @@ def shrink_prog_failure(f):
         i -= 1
     plan = "\n".join(pl) + "\n"
     last = pl[-1].split()
+    if tkey is not None:
+        last = tkey.split()
+        last[0] = {"P": "prog", "H": "callh", "W": "wide"}.get(last[0], last[0])
     if last[0] == "prog" and not any(l.startswith("ORDER") for l in f["lines"]) and _t.time() < deadline:
         try:
             def run_engine_env(exe, engs, t, p, workdir, tag, timeout=25, quiet=True):
